@@ -68,8 +68,9 @@ package twig
 //@ apply parseexpr (*Parser).parse*Expression
 //@ apply parseexpr (*Parser).parseFilters
 
-//@ func (*Parser).parseOuterTemplate props: C05
+//@ func (*Parser).parseOuterTemplate props: C05 C04
 //@   requires 0 <= p.tokenIndex && p.tokenIndex <= len(p.tokens) && wfTokens(p)
+//@   atcall[C04] NewTextNode#1 p.tokens[p.tokenIndex].Type == TOKEN_TEXT && a0 == p.tokens[p.tokenIndex].Value
 //@   ensures  old(p.tokenIndex) <= p.tokenIndex && (err == nil ==> p.tokenIndex <= len(p.tokens))
 //@   modifies p.tokenIndex
 //@   loop * invariant old(p.tokenIndex) <= p.tokenIndex && p.tokenIndex <= len(p.tokens)
@@ -855,3 +856,23 @@ package twig
 //@   loop 2 invariant 0 <= nth(start, 1) && nth(start, 1) <= t.position && startTokenCount <= len(t.tokenBuffer)
 //@   loop 3 invariant 0 <= nth(start, 2) && nth(start, 2) <= t.position && startTokenCount <= len(t.tokenBuffer)
 //@   loop 4 invariant 0 <= nth(start, 2) && nth(start, 2) <= t.position && startTokenCount <= len(t.tokenBuffer)
+
+// ---------------------------------------------------------------- literal text (C04)
+// a text token becomes a text node with the same content (see parseOuterTemplate); a text node and
+// a verbatim node write exactly their content and look at nothing of the context; a comment node
+// writes nothing
+//@ func GetTextNode props: C04
+//@   ensures[C04] ret.content == content && ret.line == line
+//@ func NewTextNode props: C04
+//@   ensures[C04] ret.content == content && ret.line == line
+//@ func (*TextNode).Render props: C04
+//@   atcall WriteString a0 == w && a1 == n.content
+//@ func (*VerbatimNode).Render props: C04
+//@   atcall WriteString a0 == w && a1 == n.content
+//@ list ctx_unused (*TextNode).Render (*VerbatimNode).Render (*CommentNode).Render
+//@ list writes_nothing (*CommentNode).Render
+// WriteString hands the string, unchanged, to the writer's own WriteString or to the pooled buffer
+//@ func WriteString props: C04
+//@   atcall io.StringWriter.WriteString a1 == s
+//@   atcall (*Buffer).WriteString#1 a1 == s
+//@   atcall (*Buffer).WriteString#2 a1 == s
